@@ -75,9 +75,16 @@ def DotHead (t : Token) : Prop := isIdent t ∨ t.ty = .star
 /-- Re-rooting at a dot: an expression that begins with an identifier or `*`
     can be hung under `a .` — the published grammar derives `a.b[0]` as
     `(a.b)[0]`, the parser reads `b[0]` first. -/
+theorem open_expr {l : Bool} {a : List Token} (h : G N l .openExpr a) : G N l .expr a := by
+  cases h with
+  | openIdx ha hb _ => exact G.index ha hb
+  | openIdx0 hb _ => exact G.index0 hb
+  | openDotStar ha hd hs => exact G.sub ha hd (G.dotStar hs)
+  | openStar hs => exact G.star hs
+
 theorem reroot_dot {l : Bool} {c : Cat} {seg : List Token} (h : G N l c seg) :
-    c = .expr → (∃ t ts, seg = t :: ts ∧ DotHead t) →
-    ∀ a d, G N l .expr a → d.ty = .dot → G N l .expr (a ++ d :: seg) := by
+    (c = .expr ∨ c = .openExpr) → (∃ t ts, seg = t :: ts ∧ DotHead t) →
+    ∀ a d, G N l .expr a → d.ty = .dot → G N l c (a ++ d :: seg) := by
   induction h with
   | ident hi => intro _ _ a d ha hd; exact G.sub ha hd (G.dotIdent hi)
   | star hs => intro _ _ a d ha hd; exact G.sub ha hd (G.dotStar hs)
@@ -87,13 +94,13 @@ theorem reroot_dot {l : Bool} {c : Cat} {seg : List Token} (h : G N l c seg) :
   | @sub x dd b hx hdd hb ihx _ =>
     intro _ ⟨t, ts, e, hh⟩ a d ha hd
     obtain ⟨ts', ex⟩ := head_append (G_ne hx) e
-    have := ihx rfl ⟨t, ts', ex, hh⟩ a d ha hd
+    have := ihx (Or.inl rfl) ⟨t, ts', ex, hh⟩ a d ha hd
     have := G.sub this hdd hb
     simpa [List.append_assoc] using this
   | @bin x o b hx ho hb ihx _ =>
     intro _ ⟨t, ts, e, hh⟩ a d ha hd
     obtain ⟨ts', ex⟩ := head_append (G_ne hx) e
-    have := ihx rfl ⟨t, ts', ex, hh⟩ a d ha hd
+    have := ihx (Or.inl rfl) ⟨t, ts', ex, hh⟩ a d ha hd
     have := G.bin this ho hb
     simpa [List.append_assoc] using this
   | @not t x ht _ _ => intro _ ⟨t', ts, e, hh⟩; simp at e; obtain ⟨rfl, _⟩ := e; rcases hh with (h | h) | h <;> simp_all
@@ -101,7 +108,7 @@ theorem reroot_dot {l : Bool} {c : Cat} {seg : List Token} (h : G N l c seg) :
   | @index x b hx hb ihx _ =>
     intro _ ⟨t, ts, e, hh⟩ a d ha hd
     obtain ⟨ts', ex⟩ := head_append (G_ne hx) e
-    have := ihx rfl ⟨t, ts', ex, hh⟩ a d ha hd
+    have := ihx (Or.inl rfl) ⟨t, ts', ex, hh⟩ a d ha hd
     have := G.index this hb
     simpa [List.append_assoc] using this
   | @index0 b hb _ =>
@@ -118,10 +125,28 @@ theorem reroot_dot {l : Bool} {c : Cat} {seg : List Token} (h : G N l c seg) :
   | @lenientList x b hl hx hb ihx _ =>
     intro _ ⟨t, ts, e, hh⟩ a d ha hd
     obtain ⟨ts', ex⟩ := head_append (G_ne hx) e
-    have := ihx rfl ⟨t, ts', ex, hh⟩ a d ha hd
+    have := ihx (Or.inr rfl) ⟨t, ts', ex, hh⟩ a d ha hd
     have := G.lenientList hl this hb
     simpa [List.append_assoc] using this
-  | _ => intro hc; cases hc
+  | @openIdx x b hx hb hpb ihx _ =>
+    intro _ ⟨t, ts, e, hh⟩ a d ha hd
+    obtain ⟨ts', ex⟩ := head_append (G_ne hx) e
+    have := ihx (Or.inl rfl) ⟨t, ts', ex, hh⟩ a d ha hd
+    have := G.openIdx this hb hpb
+    simpa [List.append_assoc] using this
+  | @openIdx0 b hb _ _ =>
+    intro _ ⟨t, ts, e, hh⟩
+    obtain ⟨t', ts', e', ht'⟩ := head_bracket hb
+    rw [e'] at e; simp at e; obtain ⟨rfl, _⟩ := e
+    rcases hh with (h | h) | h <;> rcases ht' with h' | h' | h' <;> simp_all
+  | @openDotStar x dd st hx hdd hst ihx =>
+    intro _ ⟨t, ts, e, hh⟩ a d ha hd
+    obtain ⟨ts', ex⟩ := head_append (G_ne hx) e
+    have := ihx (Or.inl rfl) ⟨t, ts', ex, hh⟩ a d ha hd
+    have := G.openDotStar this hdd hst
+    simpa [List.append_assoc] using this
+  | @openStar st hst => intro _ _ a d ha hd; exact G.openDotStar ha hd hst
+  | _ => intro hc; rcases hc with hc | hc <;> cases hc
 
 def BrHead (t : Token) : Prop := t.ty = .lbracket ∨ t.ty = .filter
 
@@ -129,8 +154,8 @@ def BrHead (t : Token) : Prop := t.ty = .lbracket ∨ t.ty = .filter
     appended to an expression (this is where the lenient production is used:
     the appended expression may be a multi-select list). -/
 theorem reroot_bracket {c : Cat} {seg : List Token} (h : G N true c seg) :
-    c = .expr → (∃ t ts, seg = t :: ts ∧ BrHead t) →
-    ∀ a, G N true .expr a → G N true .expr (a ++ seg) := by
+    (c = .expr ∨ c = .openExpr) → (∃ t ts, seg = t :: ts ∧ BrHead t) →
+    ∀ a, G N true .openExpr a → G N true c (a ++ seg) := by
   induction h with
   | @ident t hi => intro _ ⟨t', ts, e, hh⟩; simp at e; obtain ⟨rfl, _⟩ := e; rcases hi with h | h <;> rcases hh with h' | h' <;> simp_all
   | @star t ht => intro _ ⟨t', ts, e, hh⟩; simp at e; obtain ⟨rfl, _⟩ := e; rcases hh with h | h <;> simp_all
@@ -140,21 +165,21 @@ theorem reroot_bracket {c : Cat} {seg : List Token} (h : G N true c seg) :
   | @sub x dd b hx hdd hb ihx _ =>
     intro _ ⟨t, ts, e, hh⟩ a ha
     obtain ⟨ts', ex⟩ := head_append (G_ne hx) e
-    have := G.sub (ihx rfl ⟨t, ts', ex, hh⟩ a ha) hdd hb
+    have := G.sub (ihx (Or.inl rfl) ⟨t, ts', ex, hh⟩ a ha) hdd hb
     simpa [List.append_assoc] using this
   | @bin x o b hx ho hb ihx _ =>
     intro _ ⟨t, ts, e, hh⟩ a ha
     obtain ⟨ts', ex⟩ := head_append (G_ne hx) e
-    have := G.bin (ihx rfl ⟨t, ts', ex, hh⟩ a ha) ho hb
+    have := G.bin (ihx (Or.inl rfl) ⟨t, ts', ex, hh⟩ a ha) ho hb
     simpa [List.append_assoc] using this
   | @not t x ht _ _ => intro _ ⟨t', ts, e, hh⟩; simp at e; obtain ⟨rfl, _⟩ := e; rcases hh with h | h <;> simp_all
   | @paren lp x r hl _ _ _ => intro _ ⟨t', ts, e, hh⟩; simp at e; obtain ⟨rfl, _⟩ := e; rcases hh with h | h <;> simp_all
   | @index x b hx hb ihx _ =>
     intro _ ⟨t, ts, e, hh⟩ a ha
     obtain ⟨ts', ex⟩ := head_append (G_ne hx) e
-    have := G.index (ihx rfl ⟨t, ts', ex, hh⟩ a ha) hb
+    have := G.index (ihx (Or.inl rfl) ⟨t, ts', ex, hh⟩ a ha) hb
     simpa [List.append_assoc] using this
-  | @index0 b hb _ => intro _ _ a ha; exact G.index ha hb
+  | @index0 b hb _ => intro _ _ a ha; exact G.index (open_expr ha) hb
   | @list b hb _ => intro _ _ a ha; exact G.lenientList rfl ha hb
   | @hash b hb _ =>
     intro _ ⟨t, ts, e, hh⟩
@@ -169,9 +194,21 @@ theorem reroot_bracket {c : Cat} {seg : List Token} (h : G N true c seg) :
   | @lenientList x b hl hx hb ihx _ =>
     intro _ ⟨t, ts, e, hh⟩ a ha
     obtain ⟨ts', ex⟩ := head_append (G_ne hx) e
-    have := G.lenientList hl (ihx rfl ⟨t, ts', ex, hh⟩ a ha) hb
+    have := G.lenientList hl (ihx (Or.inr rfl) ⟨t, ts', ex, hh⟩ a ha) hb
     simpa [List.append_assoc] using this
-  | _ => intro hc; cases hc
+  | @openIdx x b hx hb hpb ihx _ =>
+    intro _ ⟨t, ts, e, hh⟩ a ha
+    obtain ⟨ts', ex⟩ := head_append (G_ne hx) e
+    have := G.openIdx (ihx (Or.inl rfl) ⟨t, ts', ex, hh⟩ a ha) hb hpb
+    simpa [List.append_assoc] using this
+  | @openIdx0 b hb hpb _ => intro _ _ a ha; exact G.openIdx (open_expr ha) hb hpb
+  | @openDotStar x dd st hx hdd hst ihx =>
+    intro _ ⟨t, ts, e, hh⟩ a ha
+    obtain ⟨ts', ex⟩ := head_append (G_ne hx) e
+    have := G.openDotStar (ihx (Or.inl rfl) ⟨t, ts', ex, hh⟩ a ha) hdd hst
+    simpa [List.append_assoc] using this
+  | @openStar st hst => intro _ ⟨t', ts, e, hh⟩; simp at e; obtain ⟨rfl, _⟩ := e; rcases hh with h | h <;> simp_all
+  | _ => intro hc; rcases hc with hc | hc <;> cases hc
 
 /-! ### slices -/
 
@@ -233,7 +270,7 @@ theorem sr0 {filled : Bool} {s : List Token} (h : SR 0 filled s) :
 theorem sliceLoop_inv : ∀ (fuel : Nat) (parts : List (Option Int)) (idx : Nat) (p : PState) (parts' : List (Option Int)) (p1 : PState),
     sliceLoop fuel parts idx p = .ok (parts', p1) → idx < 3 → parts.length = 3 →
     (∀ j, idx < j → parts.getD j none = none) →
-    ∃ seg, Seg p p1 seg ∧ SR idx (parts.getD idx none).isSome seg
+    ∃ seg, Seg p p1 seg ∧ SR idx (parts.getD idx none).isSome seg ∧ NumOK seg
   | 0, _, _, _, _, _, h, _, _, _ => by simp [sliceLoop] at h
   | fuel + 1, parts, idx, p, parts', p1, h, hidx, hlen, hinv => by
     simp only [sliceLoop] at h
@@ -246,10 +283,10 @@ theorem sliceLoop_inv : ∀ (fuel : Nat) (parts : List (Option Int)) (idx : Nat)
         split at h
         · unfold PState.syntaxError at h; rw [hafter] at h; cases h
         · rename_i hn3
-          obtain ⟨seg, hs, hsr⟩ := sliceLoop_inv fuel parts (idx + 1) p.advance parts' p1 h (by omega) hlen
+          obtain ⟨seg, hs, hsr, hno⟩ := sliceLoop_inv fuel parts (idx + 1) p.advance parts' p1 h (by omega) hlen
             (fun j hj => hinv j (by omega))
           rw [hinv (idx + 1) (by omega)] at hsr
-          exact ⟨t :: seg, Seg.cons hafter hs, SR.colon (by omega) hcol hsr⟩
+          exact ⟨t :: seg, Seg.cons hafter hs, SR.colon (by omega) hcol hsr, NumOK.cons_ne (by rw [hcol]; decide) hno⟩
       · split at h
         · rename_i hnum
           split at h
@@ -259,7 +296,7 @@ theorem sliceLoop_inv : ∀ (fuel : Nat) (parts : List (Option Int)) (idx : Nat)
             split at h
             · cases h
             · rename_i n hat
-              obtain ⟨seg, hs, hsr⟩ := sliceLoop_inv fuel (parts.set idx (some n)) idx p.advance parts' p1 h hidx
+              obtain ⟨seg, hs, hsr, hno⟩ := sliceLoop_inv fuel (parts.set idx (some n)) idx p.advance parts' p1 h hidx
                 (by simp [hlen]) (fun j hj => by
                   rw [List.getD_eq_getElem?_getD, List.getElem?_set_ne (by omega), ← List.getD_eq_getElem?_getD]
                   exact hinv j hj)
@@ -268,17 +305,20 @@ theorem sliceLoop_inv : ∀ (fuel : Nat) (parts : List (Option Int)) (idx : Nat)
               rw [hset] at hsr
               have hf : (parts.getD idx none).isSome = false := by simpa using hfilled
               rw [hf]
-              exact ⟨t :: seg, Seg.cons hafter hs, SR.num hnum hsr⟩
+              have htt : t' = t := by
+                have := (cur_of_after hafter).2; rw [this] at htok; injection htok with e; exact e.symm
+              exact ⟨t :: seg, Seg.cons hafter hs, SR.num hnum hsr, NumOK.cons (fun _ => by rw [← htt, hat]; rfl) hno⟩
         · unfold PState.syntaxError at h; rw [hafter] at h; cases h
     · simp only [Res.ok.injEq, Prod.mk.injEq] at h
       obtain ⟨_, rfl⟩ := h
-      exact ⟨[], Seg.refl p, SR.done⟩
+      exact ⟨[], Seg.refl p, SR.done, NumOK.nil⟩
 
 /-- Inversion of parseIndexExpression: after `[`, a number or a slice-expression, then `]`. -/
 theorem parseIndex_inv {p p1 : PState} {right : Node N} {t0 : Token} {rest0 : List Token}
     (h : parseIndexExpression (N := N) p = .ok (right, p1)) (hafter : p.after = t0 :: rest0)
     (hnc : t0.ty = .number ∨ t0.ty = .colon) :
-    ∃ body r, Seg p p1 (body ++ [r]) ∧ r.ty = .rbracket ∧ ((∃ n, body = [n] ∧ n.ty = .number) ∨ SliceG body) := by
+    ∃ body r, Seg p p1 (body ++ [r]) ∧ r.ty = .rbracket ∧
+      ((∃ n, body = [n] ∧ n.ty = .number ∧ isSliceNode right = false ∧ NumOK [n]) ∨ (SliceG body ∧ NumOK body)) := by
   simp only [parseIndexExpression] at h
   obtain ⟨c0, hc0, h⟩ := bind_ok h
   have hc0' := (cur_of_after hafter).1
@@ -293,7 +333,7 @@ theorem parseIndex_inv {p p1 : PState} {right : Node N} {t0 : Token} {rest0 : Li
     obtain ⟨r, rest, hafter2, hr, rfl⟩ := expect_ok_inv hexp
     simp only [Res.ok.injEq, Prod.mk.injEq] at h
     obtain ⟨_, rfl⟩ := h
-    obtain ⟨seg, hs, hsr⟩ := sliceLoop_inv _ _ 0 p parts p2 hloop (by omega) rfl (fun j hj => by
+    obtain ⟨seg, hs, hsr, hno'⟩ := sliceLoop_inv _ _ 0 p parts p2 hloop (by omega) rfl (fun j hj => by
       match j, hj with
       | 1, _ => rfl
       | 2, _ => rfl
@@ -325,7 +365,7 @@ theorem parseIndex_inv {p p1 : PState} {right : Node N} {t0 : Token} {rest0 : Li
           cases xs with
           | nil => simp at ha; rw [ha.2.1, hr] at hsl; cases hsl
           | cons y ys => simp at ha; exact hno y (by simp) (by rw [← ha.2.1]; exact hsl)
-    · exact hg
+    · exact ⟨hg, hno'⟩
   | false =>
     simp only [Bool.false_eq_true, if_false] at h
     obtain ⟨t, htok, h⟩ := bind_ok h
@@ -333,15 +373,17 @@ theorem parseIndex_inv {p p1 : PState} {right : Node N} {t0 : Token} {rest0 : Li
     rw [this] at htok; simp only [Res.ok.injEq] at htok; subst htok
     split at h
     · cases h
-    · obtain ⟨p2, hexp, h⟩ := bind_ok h
+    · rename_i nval hat0
+      obtain ⟨p2, hexp, h⟩ := bind_ok h
       obtain ⟨r, rest, hafter2, hr, rfl⟩ := expect_ok_inv hexp
       simp only [Res.ok.injEq, Prod.mk.injEq] at h
-      obtain ⟨_, rfl⟩ := h
+      obtain ⟨hright, rfl⟩ := h
       have hnum : t0.ty = .number := by
         rcases hnc with h' | h'
         · exact h'
         · simp [h'] at hsl
-      exact ⟨[t0], r, Seg.trans (Seg.adv hafter) (Seg.adv hafter2), hr, Or.inl ⟨t0, rfl, hnum⟩⟩
+      exact ⟨[t0], r, Seg.trans (Seg.adv hafter) (Seg.adv hafter2), hr, Or.inl ⟨t0, rfl, hnum, by rw [← hright]; rfl,
+        NumOK.cons (fun _ => by rw [hat0]; rfl) NumOK.nil⟩⟩
 
 /-! ### soundness -/
 
@@ -356,8 +398,52 @@ def NotField (n : Node N) : Prop := ∀ name, n ≠ .field name
 theorem FieldInv.of_not {seg : List Token} {n : Node N} (h : NotField n) : FieldInv seg n :=
   fun name e => absurd e (h name)
 
-/-- can be appended to any expression -/
-def Suffix (N : Type) [NumOps N] (seg : List Token) : Prop := ∀ a, GE (N := N) a → GE (N := N) (a ++ seg)
+/-- can be appended to any expression that ends in an open projection -/
+def Suffix (N : Type) [NumOps N] (seg : List Token) : Prop := ∀ a, G N true .openExpr a → GE (N := N) (a ++ seg)
+
+theorem projBr_slice {l r : Token} {body : List Token} (h : SliceG body) : ProjBr (l :: body ++ [r]) := by
+  intro l' n r' e hn
+  obtain ⟨a, c1, b, ha, hc1, hb, hs⟩ := h
+  have hlen : body.length = 1 := by
+    have := congrArg List.length e; simp at this; omega
+  rcases hs with rfl | ⟨c2, c, hc2, hc, rfl⟩
+  · have : a = [] ∧ b = [] := by
+      simp at hlen
+      constructor <;> (apply List.eq_nil_of_length_eq_zero; omega)
+    obtain ⟨rfl, rfl⟩ := this
+    simp at e
+    rw [← e.2.1, hc1] at hn; cases hn
+  · simp at hlen; omega
+
+theorem G_first {lz : Bool} {c : Cat} {s : List Token} (h : G N lz c s) :
+    (c = .expr ∨ c = .openExpr) → ∃ t ts, s = t :: ts ∧ t.ty ≠ .number := by
+  induction h with
+  | ident hi => intro _; exact ⟨_, _, rfl, by rcases hi with h | h <;> rw [h] <;> decide⟩
+  | star h | current h | raw h | literal h _ | openStar h => intro _; exact ⟨_, _, rfl, by rw [h]; decide⟩
+  | sub _ _ _ ih _ | bin _ _ _ ih _ | index _ _ ih _ | openIdx _ _ _ ih _ | openDotStar _ _ _ ih =>
+    intro _; obtain ⟨t, ts, rfl, ht⟩ := ih (Or.inl rfl); exact ⟨t, _, rfl, ht⟩
+  | lenientList _ _ _ ih _ => intro _; obtain ⟨t, ts, rfl, ht⟩ := ih (Or.inr rfl); exact ⟨t, _, rfl, ht⟩
+  | not h _ _ | paren h _ _ _ => intro _; exact ⟨_, _, rfl, by rw [h]; decide⟩
+  | index0 hb _ | openIdx0 hb _ _ =>
+    intro _; obtain ⟨t, ts, rfl, ht⟩ := head_bracket hb
+    exact ⟨t, ts, rfl, by rcases ht with h | h | h <;> rw [h] <;> decide⟩
+  | list hb _ => intro _; obtain ⟨t, ts, rfl, ht⟩ := head_list hb; exact ⟨t, ts, rfl, by rw [ht]; decide⟩
+  | hash hb _ => intro _; obtain ⟨t, ts, rfl, ht⟩ := head_hash hb; exact ⟨t, ts, rfl, by rw [ht]; decide⟩
+  | fn hb _ => intro _; obtain ⟨t, ts, rfl, ht⟩ := head_call hb; exact ⟨t, ts, rfl, by rw [ht]; decide⟩
+  | _ => intro hc; rcases hc with hc | hc <;> cases hc
+
+theorem projBr_filter {lz : Bool} {l r : Token} {e : List Token} (h : G N lz .expr e) : ProjBr (l :: e ++ [r]) := by
+  intro l' n r' heq hn
+  obtain ⟨t, ts, rfl, ht⟩ := G_first h (Or.inl rfl)
+  cases ts with
+  | nil => simp at heq; rw [← heq.2.1] at hn; exact ht hn
+  | cons y ys => have := congrArg List.length heq; simp at this
+
+theorem projBr_star {l s r : Token} (hs : s.ty = .star) : ProjBr [l, s, r] := by
+  intro l' n r' heq hn; simp at heq; rw [← heq.2.1, hs] at hn; cases hn
+
+theorem projBr_flatten {t : Token} : ProjBr [t] := by
+  intro l' n r' heq; simp at heq
 
 def Sound : Call N → Out N → Prop
   | .expr _ p, .node n p1 => ∃ seg, Seg p p1 seg ∧ GE (N := N) seg ∧ FieldInv seg n
@@ -373,10 +459,10 @@ def Sound : Call N → Out N → Prop
   | .prhs _ p, .node _ p1 => ∃ seg, Seg p p1 seg ∧ Suffix N seg
   | .filter _ p, .node n p1 => ∃ seg, Seg p p1 seg ∧ NotField n ∧
       ∀ t, t.ty = .filter → GE (N := N) (t :: seg) ∧ ∀ a, GE (N := N) a → GE (N := N) (a ++ t :: seg)
-  | .pis _ _ p, .node n p1 => ∃ seg, Seg p p1 seg ∧ Suffix N seg ∧ NotField n
+  | .pis _ r p, .node n p1 => ∃ seg, Seg p p1 seg ∧ Suffix N seg ∧ NotField n ∧ (isSliceNode r = false → seg = [])
   | _, _ => True
 
-theorem suffix_nil : Suffix N [] := fun a h => by simpa using h
+theorem suffix_nil : Suffix N [] := fun a h => by simpa using open_expr h
 
 theorem isBinOp_of_cmp {ty : TokType} {op : Cmp} (h : Cmp.ofTok ty = some op) : isBinOp ty :=
   Or.inr (Or.inr (Or.inr (by rw [h]; rfl)))
@@ -440,9 +526,9 @@ theorem R_grammatical (tbl : ParserTable) {c : Call N} {o : Out N} (h : R tbl c 
     simp only [Sound] at ih ⊢
     obtain ⟨seg, hs, hg, _⟩ := ih
     exact ⟨seg ++ [t], Seg.trans hs (Seg.adv hafter), G.paren hty hg hrp, fun _ _ => Or.inr ⟨tok :: seg, t, rfl, hrp⟩⟩
-  | @nudIndex tok p n rb rest i hty hafter hnum hrb _ =>
+  | @nudIndex tok p n rb rest i hty hafter hnum hrb hat =>
     simp only [Sound]
-    exact ⟨[n, rb], Seg.cons hafter (Seg.adv (adv_after hafter)), G.index0 (G.brNumber hty hnum hrb), FieldInv.of_not (by nf)⟩
+    exact ⟨[n, rb], Seg.cons hafter (Seg.adv (adv_after hafter)), G.index0 (G.brNumber hty hnum hrb (fun _ => NumOK.cons (fun _ => by rw [hat]; rfl) NumOK.nil)), FieldInv.of_not (by nf)⟩
   | @nudList tok p t rest o hty hafter _ _ _ _ ih =>
     cases o with
     | args _ _ => trivial
@@ -511,10 +597,10 @@ theorem R_grammatical (tbl : ParserTable) {c : Call N} {o : Out N} (h : R tbl c 
     · simp at hb
       obtain ⟨rfl, _⟩ := hb
       rw [hr] at hprev; cases hprev
-  | @ledIndex node p n rb rest i hafter hnum hrb _ =>
+  | @ledIndex node p n rb rest i hafter hnum hrb hat =>
     simp only [Sound]
     intro t segL b0 ht _ hg _
-    exact ⟨[n, rb], Seg.cons hafter (Seg.adv (adv_after hafter)), G.index hg (G.brNumber ht hnum hrb), by nf⟩
+    exact ⟨[n, rb], Seg.cons hafter (Seg.adv (adv_after hafter)), G.index hg (G.brNumber ht hnum hrb (fun _ => NumOK.cons (fun _ => by rw [hat]; rfl) NumOK.nil)), by nf⟩
   | @dotIdent bp p t rest o hafter hty _ ih =>
     cases o with
     | args _ _ => trivial
@@ -522,7 +608,7 @@ theorem R_grammatical (tbl : ParserTable) {c : Call N} {o : Out N} (h : R tbl c 
       simp only [Sound] at ih ⊢
       obtain ⟨seg, hs, hg, _⟩ := ih
       obtain ⟨ts, rfl⟩ := head_of_seg hs (G_ne hg) hafter
-      exact ⟨_, hs, fun a d ha hd => reroot_dot hg rfl ⟨t, ts, rfl, Or.inl (hty.symm)⟩ a d ha hd⟩
+      exact ⟨_, hs, fun a d ha hd => reroot_dot hg (Or.inl rfl) ⟨t, ts, rfl, Or.inl (hty.symm)⟩ a d ha hd⟩
   | @dotList bp p t rest o hafter hty _ ih =>
     cases o with
     | args _ _ => trivial
@@ -593,7 +679,7 @@ theorem R_grammatical (tbl : ParserTable) {c : Call N} {o : Out N} (h : R tbl c 
   | @nudStar tok p t rest r p1 hty _ _ _ ih =>
     simp only [Sound] at ih ⊢
     obtain ⟨seg, hs, hsuf⟩ := ih
-    exact ⟨seg, hs, hsuf [tok] (G.star hty), FieldInv.of_not (by nf)⟩
+    exact ⟨seg, hs, hsuf [tok] (G.openStar hty), FieldInv.of_not (by nf)⟩
   | @nudFilter tok p o hty _ ih =>
     cases o with
     | args _ _ => trivial
@@ -604,26 +690,25 @@ theorem R_grammatical (tbl : ParserTable) {c : Call N} {o : Out N} (h : R tbl c 
   | @nudFlatten tok p r p1 hty _ ih =>
     simp only [Sound] at ih ⊢
     obtain ⟨seg, hs, hsuf⟩ := ih
-    exact ⟨seg, hs, hsuf [tok] (G.index0 (G.brFlatten hty)), FieldInv.of_not (by nf)⟩
+    exact ⟨seg, hs, hsuf [tok] (G.openIdx0 (G.brFlatten hty) projBr_flatten), FieldInv.of_not (by nf)⟩
   | @nudBracketIdx tok p t rest right p1 o hty hafter hnc hidx _ ih =>
     cases o with
     | args _ _ => trivial
     | node n p2 =>
       simp only [Sound] at ih ⊢
-      obtain ⟨seg, hs, hsuf, hn⟩ := ih
+      obtain ⟨seg, hs, hsuf, hn, hnil⟩ := ih
       obtain ⟨body, r, hsb, hr, hbody⟩ := parseIndex_inv hidx hafter hnc
       refine ⟨(body ++ [r]) ++ seg, Seg.trans hsb hs, ?_, FieldInv.of_not hn⟩
-      have hbr : G N true .bracket (tok :: body ++ [r]) := by
-        rcases hbody with ⟨nn, rfl, hnn⟩ | hsl
-        · exact G.brNumber hty hnn hr
-        · exact G.brSlice hty hsl hr
-      have := hsuf _ (G.index0 hbr)
-      simpa [List.append_assoc] using this
+      rcases hbody with ⟨nn, rfl, hnn, hns, hno⟩ | ⟨hsl, hno⟩
+      · rw [hnil hns]
+        simpa using G.index0 (G.brNumber (N := N) (lenient := true) hty hnn hr (fun _ => hno))
+      · have := hsuf _ (G.openIdx0 (G.brSlice hty hsl hr (fun _ => hno)) (projBr_slice hsl))
+        simpa [List.append_assoc] using this
   | @nudBracketStar tok p s rb rest r p1 hty hafter hs hrb _ ih =>
     simp only [Sound] at ih ⊢
     obtain ⟨seg, hsg, hsuf⟩ := ih
     refine ⟨s :: rb :: seg, Seg.cons hafter (Seg.cons (adv_after hafter) hsg), ?_, FieldInv.of_not (by nf)⟩
-    have := hsuf _ (G.index0 (G.brStar (N := N) (lenient := true) hty hs hrb))
+    have := hsuf _ (G.openIdx0 (G.brStar (N := N) (lenient := true) hty hs hrb) (projBr_star hs))
     simpa using this
   | @nudListStar tok p t u rest o hty hafter _ _ _ ih =>
     cases o with
@@ -637,7 +722,7 @@ theorem R_grammatical (tbl : ParserTable) {c : Call N} {o : Out N} (h : R tbl c 
     obtain ⟨seg, hsg, hsuf⟩ := ih
     intro t' segL b0 ht' _ hg _
     refine ⟨t :: seg, Seg.cons hafter hsg, ?_, by nf⟩
-    have := hsuf _ (G.sub hg ht' (G.dotStar hs))
+    have := hsuf _ (G.openDotStar hg ht' hs)
     simpa [List.append_assoc] using this
   | @ledFilter n p o _ ih =>
     cases o with
@@ -652,37 +737,36 @@ theorem R_grammatical (tbl : ParserTable) {c : Call N} {o : Out N} (h : R tbl c 
     obtain ⟨seg, hs, hsuf⟩ := ih
     intro t segL b0 ht _ hg _
     refine ⟨seg, hs, ?_, by nf⟩
-    have := hsuf _ (G.index hg (G.brFlatten ht))
+    have := hsuf _ (G.openIdx hg (G.brFlatten ht) projBr_flatten)
     simpa [List.append_assoc] using this
   | @ledBracketIdx n p t rest right p1 o hafter hnc hidx _ ih =>
     cases o with
     | args _ _ => trivial
     | node n' p2 =>
       simp only [Sound] at ih ⊢
-      obtain ⟨seg, hs, hsuf, hn⟩ := ih
+      obtain ⟨seg, hs, hsuf, hn, hnil⟩ := ih
       obtain ⟨body, r, hsb, hr, hbody⟩ := parseIndex_inv hidx hafter hnc
       intro t' segL b0 ht' _ hg _
       refine ⟨(body ++ [r]) ++ seg, Seg.trans hsb hs, ?_, hn⟩
-      have hbr : G N true .bracket (t' :: body ++ [r]) := by
-        rcases hbody with ⟨nn, rfl, hnn⟩ | hsl
-        · exact G.brNumber ht' hnn hr
-        · exact G.brSlice ht' hsl hr
-      have := hsuf _ (G.index hg hbr)
-      simpa [List.append_assoc] using this
+      rcases hbody with ⟨nn, rfl, hnn, hns, hno⟩ | ⟨hsl, hno⟩
+      · rw [hnil hns]
+        simpa [List.append_assoc] using G.index hg (G.brNumber ht' hnn hr (fun _ => hno))
+      · have := hsuf _ (G.openIdx hg (G.brSlice ht' hsl hr (fun _ => hno)) (projBr_slice hsl))
+        simpa [List.append_assoc] using this
   | @ledBracketStar n p s rb rest r p1 hafter hs hrb _ ih =>
     simp only [Sound] at ih ⊢
     obtain ⟨seg, hsg, hsuf⟩ := ih
     intro t segL b0 ht _ hg _
     refine ⟨s :: rb :: seg, Seg.cons hafter (Seg.cons (adv_after hafter) hsg), ?_, by nf⟩
-    have := hsuf _ (G.index hg (G.brStar ht hs hrb))
+    have := hsuf _ (G.openIdx hg (G.brStar ht hs hrb) (projBr_star hs))
     simpa [List.append_assoc] using this
-  | @pisSlice l r p rhs p1 _ _ ih =>
+  | @pisSlice l r p rhs p1 hsl _ ih =>
     simp only [Sound] at ih ⊢
     obtain ⟨seg, hs, hsuf⟩ := ih
-    exact ⟨seg, hs, hsuf, by nf⟩
+    exact ⟨seg, hs, hsuf, by nf, fun h => by rw [hsl] at h; cases h⟩
   | @pisIndex l r p _ =>
     simp only [Sound]
-    exact ⟨[], Seg.refl p, suffix_nil, by nf⟩
+    exact ⟨[], Seg.refl p, suffix_nil, by nf, fun _ => rfl⟩
   | @filterFlat n p cond p1 rb t rest _ hafter hrb _ ih =>
     simp only [Sound] at ih ⊢
     obtain ⟨seg, hs, hg, _⟩ := ih
@@ -694,9 +778,9 @@ theorem R_grammatical (tbl : ParserTable) {c : Call N} {o : Out N} (h : R tbl c 
     obtain ⟨seg, hs, hg, _⟩ := ih1
     obtain ⟨seg2, hs2, hsuf⟩ := ih2
     refine ⟨(seg ++ [rb]) ++ seg2, Seg.trans (Seg.trans hs (Seg.adv hafter)) hs2, by nf, fun tf htf => ⟨?_, fun a ha => ?_⟩⟩
-    · have := hsuf _ (G.index0 (G.brFilter htf hg hrb))
+    · have := hsuf _ (G.openIdx0 (G.brFilter htf hg hrb) (projBr_filter hg))
       simpa [List.append_assoc] using this
-    · have := hsuf _ (G.index ha (G.brFilter htf hg hrb))
+    · have := hsuf _ (G.openIdx ha (G.brFilter htf hg hrb) (projBr_filter hg))
       simpa [List.append_assoc] using this
   | @prhsId bp p t rest _ _ =>
     simp only [Sound]
@@ -708,14 +792,14 @@ theorem R_grammatical (tbl : ParserTable) {c : Call N} {o : Out N} (h : R tbl c 
       simp only [Sound] at ih ⊢
       obtain ⟨seg, hs, hg, _⟩ := ih
       obtain ⟨ts, rfl⟩ := head_of_seg hs (G_ne hg) hafter
-      exact ⟨_, hs, fun a ha => reroot_bracket hg rfl ⟨t, ts, rfl, hty⟩ a ha⟩
+      exact ⟨_, hs, fun a ha => reroot_bracket hg (Or.inl rfl) ⟨t, ts, rfl, hty⟩ a ha⟩
   | @prhsDot bp p t rest o hafter _ hty _ ih =>
     cases o with
     | args _ _ => trivial
     | node n p1 =>
       simp only [Sound] at ih ⊢
       obtain ⟨seg, hs, hd⟩ := ih
-      exact ⟨t :: seg, Seg.cons hafter hs, fun a ha => hd a t ha hty⟩
+      exact ⟨t :: seg, Seg.cons hafter hs, fun a ha => hd a t (open_expr ha) hty⟩
   | @dotStar bp p t rest o hafter hty _ ih =>
     cases o with
     | args _ _ => trivial
@@ -723,6 +807,6 @@ theorem R_grammatical (tbl : ParserTable) {c : Call N} {o : Out N} (h : R tbl c 
       simp only [Sound] at ih ⊢
       obtain ⟨seg, hs, hg, _⟩ := ih
       obtain ⟨ts, rfl⟩ := head_of_seg hs (G_ne hg) hafter
-      exact ⟨_, hs, fun a d ha hd => reroot_dot hg rfl ⟨t, ts, rfl, Or.inr hty⟩ a d ha hd⟩
+      exact ⟨_, hs, fun a d ha hd => reroot_dot hg (Or.inl rfl) ⟨t, ts, rfl, Or.inr hty⟩ a d ha hd⟩
 
 end Jmes.Parser
